@@ -26,6 +26,10 @@ struct World {
     prefix_of: HashMap<u64, String>,              // directory -> name prefix of its current generation
     uploaded: HashMap<(u64, String), (Vec<u8>, DateTime<Utc>, u64)>,   // (vol, name) -> bytes, upload time, seq
     base: DateTime<Utc>,
+    /// composition mode (System.tla): chunks carry real LDM records of real type-31 messages
+    system: Option<(crate::icd::Layouts, Rng)>,
+    next_id: u64,
+    radials: HashMap<(u64, u64), Vec<(u8, u64)>>,                      // (vol, seq) of the current generation -> [(elevation, tag)]
 }
 
 fn vcp_frame() -> Vec<u8> {
@@ -60,7 +64,7 @@ impl World {
         }
         self.count += 1;
         let name = format!("{}-{:03}-{}", self.prefix_of[&pos.0], pos.1, letter(pos.1));
-        let bytes = chunk_bytes(pos.0, pos.1, self.count);
+        let bytes = if self.system.is_some() { self.system_chunk(pos) } else { chunk_bytes(pos.0, pos.1, self.count) };
         let lm = self.base + Duration::seconds(self.count as i64 * 4);
         s.objects.insert(format!("{BUCKET}/{SITE}/{}/{}", pos.0, name), Obj { data: bytes.clone(), last_modified: lm, lm_text: None, size_text: None });
         self.uploaded.insert((pos.0, name), (bytes, lm, pos.1));
@@ -68,15 +72,62 @@ impl World {
     }
 }
 
-struct Script { stop_after: Option<u64>, drop_after: Option<u64>, upload_limit: u64, upload_rate: u64, fault_rate: u64, max_faults: u64 }
+impl World {
+    /// chunk 1: volume header + record(VCP frame); chunk s > 1: one record with 1..4 radials of elevation 1 + (s-2)/6,
+    /// tags increasing; the first radial of a volume carries the VOL block
+    fn system_chunk(&mut self, pos: (u64, u64)) -> Vec<u8> {
+        let (l, rng) = self.system.as_mut().expect("system mode");
+        let mut out = Vec::new();
+        let mut rads = Vec::new();
+        let payload = if pos.1 == 1 {
+            out.extend_from_slice(b"AR2V0006."); out.extend_from_slice(format!("{:03}", pos.0).as_bytes()); out.extend_from_slice(&19_800u32.to_be_bytes()); out.extend_from_slice(&0u32.to_be_bytes()); out.extend_from_slice(b"KDMX");
+            bz(&vcp_frame())
+        } else {
+            let n = 1 + rng.below(4);
+            let mut frames = Vec::new();
+            for k in 0..n {
+                let el = (1 + (pos.1 - 2) / 6) as u8;
+                let id = self.next_id; self.next_id += 1;
+                let sym = crate::scan::Sym { radial: true, el, vol: if pos.1 == 2 && k == 0 { 212 } else { 0 }, id };
+                frames.extend_from_slice(&crate::scan::frame(l, rng, &sym, id as usize));
+                rads.push((el, id));
+                if rng.chance(1, 9) { frames.extend_from_slice(&crate::scan::frame(l, rng, &crate::scan::Sym { radial: false, el: 0, vol: 0, id: 0 }, id as usize)); }
+            }
+            bz(&frames)
+        };
+        out.extend_from_slice(&prefix(payload.len(), true));
+        out.extend_from_slice(&payload);
+        self.radials.insert(pos, rads);
+        out
+    }
+}
 
-fn session(rt: &tokio::runtime::Runtime, rng: &mut Rng, start: (u64, u64), full: u64, script: Script, with_stats: bool) -> Vec<Value> {
+/// Consumer side of the composition: decode a delivered chunk with the public API.
+fn decode_chunk(chunk: &Chunk<'_>) -> Result<Vec<(u8, i64)>, String> {
+    use nexrad_decode::messages::MessageContents;
+    let base = (crate::scan::DATE as i64 - 1) * 86_400_000;
+    guarded(|| {
+        let records = match chunk { Chunk::Start(file) => file.records(), Chunk::IntermediateOrEnd(record) => vec![record.clone()] };
+        let mut out = Vec::new();
+        for mut record in records {
+            if record.compressed() { record = record.decompress().map_err(|e| format!("{e:?}"))?; }
+            for m in record.messages().map_err(|e| format!("{e:?}"))? {
+                if let MessageContents::DigitalRadarData(d) = m.into_contents() { let r = d.into_radial().map_err(|e| format!("{e:?}"))?; out.push((r.elevation_number(), r.collection_timestamp() - base)); }
+            }
+        }
+        Ok::<_, String>(out)
+    }).and_then(|r| r)
+}
+
+struct Script { stop_after: Option<u64>, drop_after: Option<u64>, upload_limit: u64, upload_rate: u64, fault_rate: u64, max_faults: u64, burst_max: u64, lockstep: bool }
+
+fn session(rt: &tokio::runtime::Runtime, rng: &mut Rng, start: (u64, u64), full: u64, script: Script, with_stats: bool, system: bool) -> Vec<Value> {
     let log: Arc<Mutex<Vec<Value>>> = Arc::new(Mutex::new(Vec::new()));
     let seed = rng.next();
     rt.block_on(async {
         let sim = Sim::start().await;
         let base = Utc.with_ymd_and_hms(2024, 3, 1, 0, 0, 0).single().expect("base");
-        let world = Arc::new(Mutex::new(World { up: (0, 0), count: 0, volume_serial: 0, prefix_of: HashMap::new(), uploaded: HashMap::new(), base }));
+        let world = Arc::new(Mutex::new(World { up: (0, 0), count: 0, volume_serial: 0, prefix_of: HashMap::new(), uploaded: HashMap::new(), base, system: if system { Some((crate::icd::Layouts::load(), Rng::new(seed ^ 0x5157))) } else { None }, next_id: 1, radials: HashMap::new() }));
         {
             let mut w = world.lock().expect("world");
             let mut s = sim.state.lock().expect("state");
@@ -88,14 +139,19 @@ fn session(rt: &tokio::runtime::Runtime, rng: &mut Rng, start: (u64, u64), full:
                 for q in 1..=start.1 { w.upload(&mut s, (start.0, q)); }
             }
         }
-        log.lock().expect("log").push(json!({"ev": "init", "vol": start.0, "seq": start.1, "full": if start.1 > 0 { full } else { 0 }}));
+        {
+            let w = world.lock().expect("world");
+            let chunks: Vec<Vec<Vec<u64>>> = (1..=start.1).map(|q| w.radials.get(&(start.0, q)).map(|r| r.iter().map(|(e, i)| vec![*e as u64, *i]).collect()).unwrap_or_default()).collect();
+            log.lock().expect("log").push(json!({"ev": "init", "vol": start.0, "seq": start.1, "full": if start.1 > 0 { full } else { 0 }, "chunks": chunks}));
+        }
+        let received: Arc<Mutex<Vec<(u64, u64, Vec<u8>)>>> = Arc::new(Mutex::new(Vec::new()));
         let (tx, rx): (Sender<(ChunkIdentifier, Chunk<'static>)>, Receiver<(ChunkIdentifier, Chunk<'static>)>) = channel();
         let (stop_tx, stop_rx) = channel::<bool>();
         let (stats_tx, stats_rx) = channel::<PollStats>();
         let rx_cell: Arc<Mutex<Option<Receiver<(ChunkIdentifier, Chunk<'static>)>>>> = Arc::new(Mutex::new(Some(rx)));
 
         // consumer logic, run at request boundaries and once more after the poller returned
-        let drain = { let (log, world, rx_cell) = (log.clone(), world.clone(), rx_cell.clone()); move || -> u64 {
+        let drain = { let (log, world, rx_cell, received) = (log.clone(), world.clone(), rx_cell.clone(), received.clone()); move || -> u64 {
             let mut n = 0;
             if let Some(rx) = rx_cell.lock().expect("rx").as_ref() {
                 for (id, chunk) in rx.try_iter() {
@@ -105,7 +161,28 @@ fn session(rt: &tokio::runtime::Runtime, rng: &mut Rng, start: (u64, u64), full:
                         Some((bytes, lm, seq)) => (*seq, chunk.data() == bytes.as_slice(), id.site() == SITE && id.date_time() == Some(*lm)),
                         None => (id.sequence().unwrap_or(0) as u64, false, false),
                     };
-                    log.lock().expect("log").push(json!({"ev": "deliver", "vol": vol, "seq": seq, "data_ok": data_ok, "id_ok": id_ok}));
+                    let mut ev = json!({"ev": "deliver", "vol": vol, "seq": seq, "data_ok": data_ok, "id_ok": id_ok});
+                    if w.system.is_some() {
+                        match decode_chunk(&chunk) {
+                            Ok(d) => ev["decoded"] = json!(d.iter().map(|(e, i)| vec![*e as i64, *i]).collect::<Vec<_>>()),
+                            Err(e) => { ev["decoded"] = json!([[-1, -1]]); ev["decode_error"] = json!(e); }
+                        }
+                    }
+                    log.lock().expect("log").push(ev);
+                    if w.system.is_some() {
+                        // a volume received completely, chunk 1..55 in sequence, is assembled by concatenation and scanned
+                        let mut rcv = received.lock().expect("rcv");
+                        rcv.push((vol, seq, chunk.data().to_vec()));
+                        let n = rcv.len();
+                        if seq == LASTSEQ && n >= LASTSEQ as usize && (0..LASTSEQ as usize).all(|k| rcv[n - LASTSEQ as usize + k].0 == vol && rcv[n - LASTSEQ as usize + k].1 == k as u64 + 1) {
+                            let file: Vec<u8> = rcv[n - LASTSEQ as usize..].iter().flat_map(|c| c.2.clone()).collect();
+                            let base_ms = (crate::scan::DATE as i64 - 1) * 86_400_000;
+                            match guarded(|| nexrad_data::volume::File::new(file).scan()) {
+                                Ok(Ok(scan)) => log.lock().expect("log").push(json!({"ev": "scan", "vol": vol, "vcp": scan.coverage_pattern_number(), "sweeps": scan.sweeps().iter().map(|s| json!({"el": s.elevation_number(), "ids": s.radials().iter().map(|r| r.collection_timestamp() - base_ms).collect::<Vec<_>>()})).collect::<Vec<_>>()})),
+                                other => log.lock().expect("log").push(json!({"ev": "scan", "vol": vol, "vcp": -1, "sweeps": [], "error": format!("{:?}", other.map(|r| r.map(|_| ())))})),
+                            }
+                        }
+                    }
                     n += 1;
                 }
             }
@@ -123,12 +200,15 @@ fn session(rt: &tokio::runtime::Runtime, rng: &mut Rng, start: (u64, u64), full:
                 if let Some(k) = script.stop_after { if h.0 >= k && !h.1 { h.1 = true; let _ = stop_tx.send(true); log.lock().expect("log").push(json!({"ev": "stop"})); } }
                 if let Some(k) = script.drop_after { if h.0 >= k && !h.2 { h.2 = true; *rx_cell.lock().expect("rx") = None; log.lock().expect("log").push(json!({"ev": "drop"})); } }
                 // the uploader makes 0..3 further chunks visible
-                let mut burst = if h.5.below(100) < script.upload_rate { 1 + h.5.below(3) } else { 0 };
+                // lockstep uploader: the next chunk appears (usually) just when the poller asks for something that is not there yet
+                let missing = if req.is_list() { let pfx = format!("{BUCKET}/{}", req.q("prefix").unwrap_or("")); !s.objects.keys().any(|k| k.starts_with(&pfx)) } else { !s.objects.contains_key(&format!("{BUCKET}/{}", req.bucket_key().1)) };
+                let mut burst = if script.lockstep { if missing && h.5.below(100) < 80 { 1 } else { 0 } } else if h.5.below(100) < script.upload_rate { 1 + h.5.below(script.burst_max) } else { 0 };
                 while burst > 0 && h.3 < script.upload_limit {
                     let mut w = world.lock().expect("world");
                     let nx = if w.up == (0, 0) { (1, 1) } else { succ(w.up) };
                     w.upload(s, nx);
-                    log.lock().expect("log").push(json!({"ev": "upload", "vol": nx.0, "seq": nx.1}));
+                    let rads: Vec<Vec<u64>> = w.radials.get(&nx).map(|r| r.iter().map(|(e, i)| vec![*e as u64, *i]).collect()).unwrap_or_default();
+                    log.lock().expect("log").push(json!({"ev": "upload", "vol": nx.0, "seq": nx.1, "rads": rads}));
                     h.3 += 1; burst -= 1;
                 }
                 if req.is_list() {
@@ -160,8 +240,37 @@ fn session(rt: &tokio::runtime::Runtime, rng: &mut Rng, start: (u64, u64), full:
     out
 }
 
+/// Composition sessions (System.tla): long sessions from the start of a volume so that whole volumes are received.
+fn record_system(args: &Args) {
+    watchdog(2400);
+    let mut rng = Rng::new(args.seed);
+    let mut res = Results::create(args.res.as_deref().unwrap_or(""));
+    let dir = args.out.as_deref().unwrap_or("");
+    let sessions = if args.thorough { 10 } else { 3 };
+    let mut index = Vec::new();
+    for k in 0..sessions {
+        let rt = runtime();
+        let start = match k % 3 { 0 => (998u64, 54u64), 1 => (999, 1), _ => (1 + rng.below(999), 1 + rng.below(55)) };
+        let script = Script { stop_after: Some(if k % 3 == 2 { rng.range(5, 60) } else { 130 }), drop_after: None, upload_limit: 100_000, upload_rate: if k % 3 == 2 { 75 } else { 40 }, fault_rate: 4, max_faults: 1_000, burst_max: if k % 3 == 2 { 3 } else { 1 }, lockstep: k % 3 != 2 };
+        let events = session(&rt, &mut rng, start, 0, script, false, true);
+        let (deliveries, scans) = (events.iter().filter(|e| e["ev"] == json!("deliver")).count(), events.iter().filter(|e| e["ev"] == json!("scan")).count());
+        res.case(fnv(format!("sys{}{}", events.len(), k).as_bytes()), deliveries >= 2);
+        let path = format!("{dir}.{k}");
+        let mut tr = TraceOut::create(&path);
+        for e in &events { tr.ev(e.clone()); }
+        tr.finish();
+        index.push(json!({"trace": path, "events": events.len(), "deliveries": deliveries, "volume_scans": scans, "start": [start.0, start.1], "returned": events.last()}));
+        if k == 0 { res.sample(json!({"session": index[0], "a_deliver_event": events.iter().find(|e| e["ev"] == json!("deliver") && e["decoded"].as_array().map(|a| !a.is_empty()).unwrap_or(false))})); }
+    }
+    let mut tr = TraceOut::create(dir);
+    for i in index { tr.ev(i); }
+    tr.finish();
+    res.finish();
+}
+
 pub fn run(args: &Args) {
     if args.mode == "replay" { return replay(args); }
+    if args.mode == "record-system" { return record_system(args); }
     if args.mode != "record" { eprintln!("poll: unknown mode"); std::process::exit(2); }
     watchdog(2400);
     let mut rng = Rng::new(args.seed);
@@ -178,13 +287,13 @@ pub fn run(args: &Args) {
         let full = if k % 6 == 5 { 520 } else { rng.below(3) };
         let target = if args.thorough { rng.range(60, 150) } else { rng.range(8, 70) };
         let script = match k % 5 {
-            0 | 1 => Script { stop_after: Some(target), drop_after: None, upload_limit: 100_000, upload_rate: 70, fault_rate: 6, max_faults: 1_000 },
-            2 => Script { stop_after: None, drop_after: Some(rng.below(target)), upload_limit: 100_000, upload_rate: 80, fault_rate: 3, max_faults: 1_000 },
-            3 => Script { stop_after: None, drop_after: None, upload_limit: rng.below(target), upload_rate: 90, fault_rate: 0, max_faults: 0 },       // the uploader stops: retry budget runs out
-            _ => Script { stop_after: Some(rng.below(3)), drop_after: None, upload_limit: 100_000, upload_rate: 40, fault_rate: 12, max_faults: 1_000 },
+            0 | 1 => Script { stop_after: Some(target), drop_after: None, upload_limit: 100_000, upload_rate: 70, fault_rate: 6, max_faults: 1_000, burst_max: 3, lockstep: false },
+            2 => Script { stop_after: None, drop_after: Some(rng.below(target)), upload_limit: 100_000, upload_rate: 80, fault_rate: 3, max_faults: 1_000, burst_max: 3, lockstep: false },
+            3 => Script { stop_after: None, drop_after: None, upload_limit: rng.below(target), upload_rate: 90, fault_rate: 0, max_faults: 0, burst_max: 3, lockstep: false },       // the uploader stops: retry budget runs out
+            _ => Script { stop_after: Some(rng.below(3)), drop_after: None, upload_limit: 100_000, upload_rate: 40, fault_rate: 12, max_faults: 1_000, burst_max: 3, lockstep: false },
         };
         let (start, full) = if k == 7 { ((0, 0), 0) } else { ((start_vol, start_seq), full) };
-        let events = session(&rt, &mut rng, start, full, script, k % 2 == 0);
+        let events = session(&rt, &mut rng, start, full, script, k % 2 == 0, false);
         let deliveries = events.iter().filter(|e| e["ev"] == json!("deliver")).count();
         res.case(fnv(format!("{:?}", events.len()).as_bytes()) ^ k as u64, deliveries >= 2);
         let path = format!("{dir}.{k}");
@@ -241,7 +350,7 @@ fn scripted_session(rt: &tokio::runtime::Runtime, start: (u64, u64), full: u64, 
     rt.block_on(async {
         let sim = Sim::start().await;
         let base = Utc.with_ymd_and_hms(2024, 3, 1, 0, 0, 0).single().expect("base");
-        let world = Arc::new(Mutex::new(World { up: (0, 0), count: 0, volume_serial: 0, prefix_of: HashMap::new(), uploaded: HashMap::new(), base }));
+        let world = Arc::new(Mutex::new(World { up: (0, 0), count: 0, volume_serial: 0, prefix_of: HashMap::new(), uploaded: HashMap::new(), base, system: None, next_id: 1, radials: HashMap::new() }));
         {
             let mut w = world.lock().expect("world");
             let mut s = sim.state.lock().expect("state");
